@@ -50,14 +50,18 @@ def run(tier, rep, ev):
         if multi:
             cases.append((raw, pw, names0, data0, targets, True))
             meta.append({"e": "img", "archive": label, "region": "none", "damage": "intact", "what": "by name", "intact": True})
-        for kind, what, img, off in damage.damages(raw, regions, R, tier):
+        dmg = list(damage.damages(raw, regions, R, tier))
+        if "enchdr" in label and tier == "quick":
+            # every open derives the AES key (2^19 rounds): in quick only the packed header, every 5th damage
+            dmg = [x for x in dmg if (damage.region_at(regions, x[3]) or "").startswith("hdrpack")][::5] + dmg[:6]
+        for kind, what, img, off in dmg:
             region = damage.region_at(regions, off) if kind != "extend" else "trailing"
             # multi-folder archives: opened by file name as well (worker threads, one per folder); every other image in quick
             modes = [False]
             if multi:
                 modes = [True, False] if tier != "quick" else [len(cases) % 2 == 1]
             for bypath in modes:
-                cases.append((img, pw, names0, data0, targets, bypath))
+                cases.append((img, pw, names0, data0, targets, bypath, bypath and len(cases) % 8 == 1))      # every 8th by-name image: worker processes too
                 meta.append({"e": "img", "archive": label, "region": region, "damage": kind, "what": what + (" (by name)" if bypath else ""), "intact": False})
     outs = sandbox.run_cases(damage.probe, cases, timeout=30, nproc=16, slice_size=40, mem=2 << 30, max_hangs=40)
     traces, origins = [], []
